@@ -24,6 +24,7 @@ inductive XVal (R : Type)
   | none                 -- None
   | num (x : R)          -- anything `float()` accepts (read as its real value)
   | bad (e : Err)        -- `float(value)` raises `e`
+  deriving DecidableEq
 
 /-- `symbol in POLAR_SYMBOLS or symbol == "defocus" or symbol in POLAR_ALIASES`: the keys whose value is converted -/
 def isCoefKey (syms : List String) (aliases : List (String × String)) (k : String) : Bool :=
@@ -58,6 +59,7 @@ def validateX (syms : List String) (aliases : List (String × String))
 inductive XTop (R : Type)
   | leaf (v : XVal R)
   | dict (items : List (String × XVal R))        -- e.g. "aberration_coefs": {...}
+  deriving DecidableEq
 
 def processTopX (syms : List String) (aliases : List (String × String)) :
     List (String × R) → List (String × XTop R) → Except Err (List (String × R))
